@@ -12,6 +12,6 @@ void *nondet_vptr(void);
 static inline void xv_tc_havoc(void)
 {
     xv_fd_havoc();
-    __CPROVER_havoc_object(&xv_tc); __CPROVER_havoc_object(&xv_trk); __CPROVER_havoc_object(&xv_ai); __CPROVER_havoc_object(&xv_tmgrs);
+    __CPROVER_havoc_object(&xv_tc); __CPROVER_havoc_object(&xv_ai); __CPROVER_havoc_object(&xv_tmgrs);
 }
 #endif
